@@ -195,6 +195,12 @@ var c20LengthCorners = []stepDesc{
 	{Kind: 2, V: "abcd", Min: -1, Max: -1}, {Kind: 2, V: "abcd", Min: 5, Max: 3},
 }
 
+// corner cases of the values step: no value, several empty values, empty first / last
+var c20ValuesCorners = []stepDesc{
+	{Kind: 1, Vs: nil}, {Kind: 1, Vs: []string{""}}, {Kind: 1, Vs: []string{"", ""}}, {Kind: 1, Vs: []string{"", "", ""}},
+	{Kind: 1, Vs: []string{"a", "", ""}}, {Kind: 1, Vs: []string{"", "b", ""}}, {Kind: 1, Vs: []string{"", "", "c"}}, {Kind: 1, Vs: []string{" ", "\t"}},
+}
+
 func runC20(c *Ctx) {
 	c.rep.Rule = "all step sequences up to a length bound over the 8 step kinds x outcome {pass, fail, condition false} (17 variants per position), plus length-step corner cases in every position of short chains and random longer chains with random string/length parameters; each case runs the real checker twice with instrumented closures. Non-trivial = at least one step; distinct by construction of the enumeration."
 	b := &batch{c: c, site: "chk"}
@@ -252,7 +258,7 @@ func runC20(c *Ctx) {
 	// length corners in every position of chains of length <= 3
 	for n := 1; n <= 3; n++ {
 		for pos := 0; pos < n; pos++ {
-			for _, corner := range c20LengthCorners {
+			for _, corner := range append(append([]stepDesc{}, c20LengthCorners...), c20ValuesCorners...) {
 				for _, other := range []stepDesc{c20Variants[0], c20Variants[15], c20Variants[16]} {
 					prog := make([]stepDesc, n)
 					for i := range prog {
